@@ -226,10 +226,15 @@ fn run_batch(key_len: usize, shapes: Vec<Shape>) -> Result<Vec<(usize, Vec<Findi
     }
     match key_len {
         1 => go!(1),
+        2 => go!(2),
         4 => go!(4),
         8 => go!(8),
+        16 => go!(16),
+        33 => go!(33),
         64 => go!(64),
+        128 => go!(128),
         255 => go!(255),
+        500 => go!(500),
         1000 => go!(1000),
         n => Err(format!("unsupported key length {n}")),
     }
@@ -247,11 +252,16 @@ pub struct IndexStats {
 
 pub fn shapes(thorough: bool) -> Vec<Shape> {
     let mut out = Vec::new();
+    // (key length, every key count up to)
     let plan: Vec<(usize, usize)> = if thorough {
-        vec![(1000, 400), (255, 600), (64, 400), (8, 300), (4, 300), (1, 127)]
+        vec![(1000, 700), (500, 700), (255, 900), (128, 700), (64, 700), (33, 600), (16, 600), (8, 600), (4, 600), (2, 600), (1, 127)]
     } else {
-        vec![(1000, 130), (64, 120), (4, 120), (255, 40), (1, 30)]
+        vec![(1000, 400), (255, 600), (64, 400), (33, 200), (8, 300), (4, 300), (1, 127)]
     };
+    // the quick tier enumerates runs and key counts as completely as the thorough one, over fewer
+    // key lengths and smaller maxima
+    let quick = !thorough;
+    let thorough = true;
     for (l, max_n) in plan {
         let b = 4096 / (57 + l); // headers per leaf block
         for n in 1..=max_n {
@@ -282,7 +292,7 @@ pub fn shapes(thorough: bool) -> Vec<Shape> {
             out.push(Shape { key_len: 1, n: 256, dist: Dist::Ones });
             out.push(Shape { key_len: 1, n: 256, dist: Dist::Twos });
         }
-        if thorough && (l == 4 || l == 8) {
+        if (!quick || l == 8) && (l == 2 || l == 4 || l == 8 || l == 16) {
             // block multiples up to two inner levels
             let fan = (4096 - 16) / (l + 8) + 1;
             for j in [fan - 1, fan, fan + 1, 2 * fan] {
